@@ -50,7 +50,7 @@ Theorem refines_spec_hops fuel ops ssf vs1 sf vs2 : (forall b, In b (hop_roots o
 Proof.
   intros Hrk H1 H2.
   rewrite (spec_hops_clean fuel ops (restart init_state) ssf vs1 (AtRest_restart F (fixedR rules) init_state (AtRest_init F (fixedR rules))) H1 Hrk).
-  exact (proj1 (hops_values_clean rules F rank ord syncp Hrank Hwfd Hord fuel ops (irestart true init_istate) sf vs2 (DInv_new rules F) H2 Hrk)).
+  exact (proj1 (hops_values_clean rules F rank (fixedR rules) ord syncp Hrank Hwfd (fixedR_ok rules) Hord fuel ops (irestart true init_istate) sf vs2 (DInv_new F (fixedR rules)) H2 Hrk)).
 Qed.
 End Ref.
 
